@@ -1104,6 +1104,11 @@ fn gen_c19_conv(r: &mut Rng) -> Plan {
     if r.chance(1, 10) {
         p.cfg.auth_reject = Some(0xA000_0000 | r.below(1 << 20) as u32);
     }
+    // a shim that leaves on_init to the library (its default answers OK): the library's own
+    // writes are as fallible as the shim's
+    if r.chance(1, 5) && p.cmds.iter().any(|c| matches!(c.kind, CmdKind::InitDb(_))) {
+        p.cfg.default_on_init = true;
+    }
     // moderate chunking so that conversations have a few hundred operations at most
     p.reads = match r.below(4) {
         0 => ReadSched::all(),
@@ -1336,6 +1341,18 @@ impl Check for C19 {
                 }];
                 ctx.eval(&p);
             }
+            // ... and an orderly close (close_notify) after every plaintext byte of the client's
+            // script, from "right after the TLS handshake" on: Ok exactly at command boundaries
+            // behind the handshake response, as over plaintext
+            ctx.stats.bump("enum.fault_points_tls_clean_close", n_bytes + 1);
+            for k in (0..=n_bytes).step_by(byte_stride as usize) {
+                p.faults = vec![Fault {
+                    at: FaultAt::TlsCleanClose(k),
+                    kind: FaultKind::Eof,
+                    persistent: true,
+                }];
+                ctx.eval(&p);
+            }
             return;
         }
         for k in (0..=n_bytes).step_by(byte_stride as usize) {
@@ -1404,11 +1421,14 @@ impl Check for C19 {
         match &fault.kind {
             FaultKind::Eof => {
                 // Ok exactly when the stream ended on a command boundary after the handshake
-                let k = match fault.at {
-                    FaultAt::ClientByte(k) => k as usize,
+                let (k, clean) = match fault.at {
+                    FaultAt::ClientByte(k) => (k as usize, false),
+                    // an orderly TLS close after k plaintext bytes: judged like the end of a
+                    // plaintext stream after k bytes
+                    FaultAt::TlsCleanClose(k) => (k as usize, true),
                     _ => return,
                 };
-                if let Some(t) = &w.tls {
+                if let (Some(t), false) = (&w.tls, clean) {
                     // TLS: the stream was cut before the client had sent everything (and its
                     // close_notify): a truncation, never a clean close
                     if !t.closed && matches!(out.end, RunEnd::Ok) {
@@ -1590,7 +1610,62 @@ fn hostile_block(r: &mut Rng, nparams: usize) -> Blob {
     Blob::Lit(b)
 }
 
+/// A statement with as many parameters as the protocol allows (the count is a u16): PREPARE,
+/// then a well-formed EXECUTE that binds a type for every parameter (all values NULL), then the
+/// same without types. Sizes derived from the count (NULL bitmap, type table) pass 2^15 and 2^16.
+fn gen_c20_many_params(r: &mut Rng) -> Plan {
+    let np = *r.pick(&[32_767usize, 32_768, 32_769, 40_000, 65_534, 65_535]);
+    let params: Vec<ColSpec> = (0..np)
+        .map(|_| ColSpec {
+            table: Blob::lit(b""),
+            name: Blob::lit(b"?"),
+            coltype: 0xfd,
+            flags: 0,
+        })
+        .collect();
+    let exec = |bind: Option<Vec<(u8, u8)>>| Cmd {
+        seq: 0,
+        kind: CmdKind::Execute {
+            stmt: 3,
+            flags: 0,
+            iters: 1,
+            block: ParamBlock {
+                bind,
+                values: vec![PVal::Null; np],
+                raw: None,
+                stale_types: None,
+            },
+        },
+        act: Act::Program(super::common::simple_ok_program()),
+    };
+    let ty = *r.pick(&[(0x03u8, 0u8), (0xfd, 0), (0x08, 0x80)]);
+    let cmds = vec![
+        Cmd {
+            seq: 0,
+            kind: CmdKind::Prepare(Blob::lit(b"insert into t values (?, ?, ...)")),
+            act: Act::Prepare(PrepAct::Reply {
+                id: 3,
+                params,
+                cols: vec![],
+            }),
+        },
+        exec(Some(vec![ty; np])),
+        exec(None),
+        Cmd {
+            seq: 0,
+            kind: CmdKind::Ping,
+            act: Act::None,
+        },
+    ];
+    let mut p = Plan::basic(cmds);
+    p.arrival = Arrival::upfront();
+    p
+}
+
 fn gen_c20(r: &mut Rng, job: u64) -> Plan {
+    if job % 40_000 == 39_999 {
+        return gen_c20_many_params(r);
+    }
     // (b) systematic sweep of all command payloads of length <= 3 over a 12-byte alphabet
     const ALPHA: [u8; 12] = [0x00, 0x01, 0x02, 0x03, 0x04, 0x0e, 0x16, 0x17, 0x18, 0x19, 0x1f, 0xff];
     let sweep = 12 + 144 + 1728 + 1;
@@ -1853,7 +1928,7 @@ impl Check for C20 {
         "hostile inputs (grammar-aware mutation of valid conversations, structured inconsistent parameter blocks, short-string sweep, random bytes) under seeded chunking"
     }
     fn rule_text(&self) -> &'static str {
-        "jobs 0..1884 sweep every command payload of length <= 3 over a 12-byte alphabet after a valid handshake; the remaining jobs are seeded: valid conversations with 1..3 structure-aimed byte mutations (header length, sequence id, command byte, ids/counts/flags, truncation, insertion, deletion), EXECUTEs with inconsistent parameter blocks (truncated NULL bitmap / type table / values, unknown type codes, any flag byte, lenenc length lies, types never bound), truncated and unknown commands with any sequence id, malformed handshakes in both layouts, random byte strings <= 64 as whole stream or behind a valid handshake; 1 run in 25 over a transport that accepts no more bytes from a seeded operation on (write returns Ok(0)). Oracle: run_on never panics (site = file + message with numbers erased), terminates (operation budget + watchdog), and everything flushed splits into well-formed packets. Distinct = plan signature."
+        "jobs 0..1884 sweep every command payload of length <= 3 over a 12-byte alphabet after a valid handshake; the remaining jobs are seeded: valid conversations with 1..3 structure-aimed byte mutations (header length, sequence id, command byte, ids/counts/flags, truncation, insertion, deletion), EXECUTEs with inconsistent parameter blocks (truncated NULL bitmap / type table / values, unknown type codes, any flag byte, lenenc length lies, types never bound), truncated and unknown commands with any sequence id, malformed handshakes in both layouts, random byte strings <= 64 as whole stream or behind a valid handshake; 1 run in 25 over a transport that accepts no more bytes from a seeded operation on (write returns Ok(0)); 1 job in 40 000 prepares and executes a statement with 32 767..65 535 parameters. Oracle: run_on never panics (site = file + message with numbers erased), terminates (operation budget + watchdog), and everything flushed splits into well-formed packets. Distinct = plan signature."
     }
     fn jobs(&self, tier: Tier) -> u64 {
         match tier {
